@@ -139,13 +139,18 @@ def _check_target(t: str, exp, fails, sig, brief, absolute_prefix=None):
         fails.append(Failure("target", {**sig, "what": "query"}, f"request target query {q!r} does not mean {want_q!r}: {brief()}"))
 
 
-def run_one(url: str, route: str, w, net, pm, exp, fails, sig, brief):
+def run_one(url: str, route: str, w, net, pm, exp, fails, sig, brief, via_redirect=False):
     import urllib3
 
     n_log, n_dials = len(w.log), len(net.dials)
     err = None
     try:
-        r = pm.request("GET", url, retries=False, redirect=False)
+        if via_redirect:
+            # the URL under test is reached through a redirect from http://start.test/ (same checks on the second request)
+            w.redirect_to = url
+            r = pm.request("GET", "http://start.test/redir", retries=urllib3.Retry(total=3, redirect=2), redirect=True)
+        else:
+            r = pm.request("GET", url, retries=False, redirect=False)
         r.data
     except BaseException as e:  # noqa: BLE001
         if type(e).__name__ == "CaseTimeout":
@@ -153,6 +158,13 @@ def run_one(url: str, route: str, w, net, pm, exp, fails, sig, brief):
         err = e
     entries = w.log[n_log:]
     dials = net.dials[n_dials:]
+    if via_redirect:
+        # drop everything that belongs to the first hop
+        k = next((i for i, e in enumerate(entries) if e["route"] != "connect" and "/redir" in e["target"]), None)
+        if k is not None:
+            first_sid = entries[k]["sid"]
+            entries = entries[k + 1 :]
+            dials = dials[1:] if dials and (str(dials[0][0]).lower() in ("start.test", "proxy.test", "sproxy.test")) and not any(e["sid"] == first_sid for e in entries) else ([] if not entries or any(e["sid"] == first_sid for e in entries) else dials)
     if err is not None:
         fails.append(Failure("call-failed", {**sig, "exc": type(err).__name__}, f"{type(err).__name__}: {err}: {brief()} dials={dials} refused={w.refused}"))
         return None
@@ -226,7 +238,7 @@ def run_one(url: str, route: str, w, net, pm, exp, fails, sig, brief):
 def run_case(case) -> list[Failure]:
     import urllib3
 
-    if case.get("kind") != "url" or case.get("route") not in ROUTES:
+    if case.get("kind") != "url" or case.get("route") not in ROUTES or not isinstance(case.get("via_redirect", False), bool):
         raise core.InvalidCase
     c = case["c"]
     if not isinstance(c, dict) or c.get("scheme") not in SCHEMES + [s.swapcase() for s in SCHEMES] or not isinstance(c.get("host"), str) or not c["host"]:
@@ -253,7 +265,13 @@ def run_case(case) -> list[Failure]:
     fails: list[Failure] = []
     sig = {"route": route}
     nulltls.reset()
-    w = world.World()
+    def handler(wd, entry):
+        if "/redir" in entry["target"] and getattr(wd, "redirect_to", None):
+            return {"status": 302, "headers": [("Location", wd.redirect_to)], "body_len": 2}
+        return {"status": 200}
+
+    w = world.World(handler=handler)
+    w.add_origin("http", "start.test", 80)
     ident = nulltls.Identity([("IP Address" if exp["is_v6"] or re.fullmatch(r"[0-9.]+", exp["sni"]) else "DNS", exp["sni"])], label="origin") if scheme == "https" else None
     w.add_origin(scheme, exp["dial"][0], exp["dial"][1], identity=ident)
     w.add_proxy("http", "proxy.test", 3128)
@@ -274,7 +292,14 @@ def run_case(case) -> list[Failure]:
         else:
             pm = urllib3.ProxyManager("http://proxy.test:3128", ssl_context=ctx)
         try:
-            e1 = run_one(url, route, w, net, pm, exp, fails, sig, brief)
+            via = bool(case.get("via_redirect"))
+            if via and not url.isascii():
+                raise core.InvalidCase  # a Location header carries ASCII only
+            if via:
+                sig = {**sig, "via_redirect": True}
+            e1 = run_one(url, route, w, net, pm, exp, fails, sig, brief, via_redirect=via)
+            if via:
+                return _done(fails, w, sig, brief)
             if e1 is not None and not fails:
                 e2 = run_one(url2, route, w, net, pm, exp2, fails, {**sig, "variant": True}, brief)
                 if e2 is not None:
@@ -294,6 +319,10 @@ def run_case(case) -> list[Failure]:
                 pm.clear()
             except Exception:  # noqa: BLE001
                 pass
+    return _done(fails, w, sig, brief)
+
+
+def _done(fails, w, sig, brief):
     if w.violations:
         fails.append(Failure("wire", {**sig, "what": w.violations[0][0]}, f"{w.violations[:2]}: {brief()}"))
     return fails
@@ -343,6 +372,8 @@ def enum_cases(tier):
         for route in routes_for(scheme):
             k += 1
             yield _mk(scheme, USERINFO[k % len(USERINFO)], host, port, PATHS[k % len(PATHS)], QUERIES[k % len(QUERIES)], FRAGS[k % len(FRAGS)], route)
+            if port in (None, "8080", "default") and scheme in ("http", "https") and build_url({"scheme": scheme, "host": host, "path": PATHS[k % len(PATHS)], "query": QUERIES[k % len(QUERIES)]}).isascii():
+                yield dict(_mk(scheme, None, host, port, PATHS[k % len(PATHS)], QUERIES[k % len(QUERIES)], None, route), via_redirect=True)
     for path, query, frag, ui in itertools.product(PATHS, QUERIES, FRAGS, USERINFO):
         k += 1
         if tier == "quick" and k % 3:
